@@ -160,7 +160,7 @@ class Oracles:
         """Constructing a pool with a negative size must raise ValueError."""
         w, L = self.w, self.L
         n_before = len(L.BaseTaskPool._pools)
-        v = -1 - (op.get("v", 0) % 3)
+        v = [-1, -2, -3, -inf][op.get("v", 0) % 4]
         try:
             if op.get("simple"):
                 async def f() -> None:
@@ -435,7 +435,7 @@ class Oracles:
         pm = self.pm_of(op)  # type: ignore[attr-defined]
         pool = pm.pool
         v = op.get("v", 1)
-        v = inf if v is None else v
+        v = inf if v is None else -inf if v == "-inf" else v
         self.ops_seen.add("set_size")
         occupied = sum(1 for t in pm.tasks.values() if not t.finished() and not t.forgotten and (t.live or not t.started or t.ccb_running or (t.body_done and not t.ecb_n and not t.finished())))
         occupied += pool.num_running + pool.num_cancelled
